@@ -42,6 +42,8 @@ pub struct ActorPlan {
     pub window: usize,
     /// May send ill-formed payloads although it is otherwise an ordinary connection.
     pub garbage: bool,
+    /// Connects only after this many other connections have ended (0 = at once).
+    pub start_after: u32,
     pub script: Vec<Op>,
 }
 
@@ -72,7 +74,7 @@ impl WirePlan {
             "fault_point": self.fault_point.map(|(p, b, s)| serde_json::json!([p.to_string(), b, s])),
             "actors": self.actors.iter().map(|a| serde_json::json!({
                 "major": a.major, "minor": a.minor, "legacy": a.legacy, "capacity": a.capacity,
-                "abuser": a.abuser, "conformant": a.conformant, "window": a.window, "garbage": a.garbage,
+                "abuser": a.abuser, "conformant": a.conformant, "window": a.window, "garbage": a.garbage, "start_after": a.start_after,
                 "script": a.script.iter().map(|o| o.to_json()).collect::<Vec<_>>(),
             })).collect::<Vec<_>>(),
         })
@@ -92,6 +94,7 @@ impl WirePlan {
                     conformant: a["conformant"].as_bool().unwrap_or(false),
                     window: a["window"].as_u64().unwrap_or(0) as usize,
                     garbage: a["garbage"].as_bool().unwrap_or(false),
+                    start_after: a["start_after"].as_u64().unwrap_or(0) as u32,
                     script: a["script"]
                         .as_array()?
                         .iter()
@@ -224,6 +227,8 @@ struct World {
     tap: Rc<RefCell<Vec<TapEvent>>>,
     pending_input: Option<TapInput>,
     raw_to_actor: BTreeMap<usize, usize>,
+    seen_raw: BTreeSet<usize>,
+    release_handles: bool,
     /// Registered connections whose actor is not known yet.
     unmapped: BTreeSet<usize>,
     removed_unmapped: Vec<(usize, bool)>,
